@@ -383,6 +383,31 @@ impl Ctx {
         }
         if nviol > 0 {
             exit = 1;
+            // summary of violation kinds (digits masked), so that a flood is readable
+            let mut kinds: BTreeMap<String, u64> = BTreeMap::new();
+            for v in &all_v {
+                let mut k = String::new();
+                let mut in_num = false;
+                for c in v.what.chars() {
+                    if c.is_ascii_digit() {
+                        if !in_num {
+                            k.push('#');
+                        }
+                        in_num = true;
+                    } else if in_num && (c == '.' || c == 'e' || c == '-' || c == '+') {
+                    } else {
+                        in_num = false;
+                        k.push(c);
+                    }
+                    if k.len() > 140 {
+                        break;
+                    }
+                }
+                *kinds.entry(k).or_insert(0) += 1;
+            }
+            for (k, n) in kinds.iter() {
+                println!("  violation kind x{n}: {k}");
+            }
         }
         let herr = self.harness_errors.lock().unwrap();
         for e in herr.iter() {
@@ -407,7 +432,15 @@ impl Ctx {
         }
         cov.insert("counters".into(), json!(t.counters));
         cov.insert("worst_error_over_tolerance".into(), json!(t.ratios.iter().map(|(k, v)| (k.clone(), if v.is_finite() { json!(v) } else { json!(format!("{v}")) })).collect::<Map<String, Value>>()));
-        cov.insert("distinct_seen".into(), json!(t.sets));
+        let mut seen = Map::new();
+        for (k, v) in t.sets.iter() {
+            if v.len() > 40 {
+                seen.insert(k.clone(), json!({"count": v.len(), "first": v.iter().take(8).collect::<Vec<_>>()}));
+            } else {
+                seen.insert(k.clone(), json!(v));
+            }
+        }
+        cov.insert("distinct_seen".into(), Value::Object(seen));
         cov.insert("inconclusive".into(), json!(t.inconclusive));
         cov.insert("streams".into(), Value::Array(self.streams.lock().unwrap().clone()));
         cov.insert("known_findings_hit".into(), json!(known_lines.iter().map(|(k, v)| (k.clone(), json!(v.1))).collect::<Map<String, Value>>()));
